@@ -1,5 +1,6 @@
 import BufModel.Path
 import BufModel.ArchiveKinds
+import BufModel.FileNodeGate
 import Driver.Util
 import Driver.Bucket
 /-
@@ -24,6 +25,13 @@ import Driver.Bucket
          zip mode: p plain(FAT, attrs 0), D FAT dir attribute, r unix regular, d unix dir, l symlink,
                f fifo, s socket, b block device, c char device
        runs BufModel.ArchiveKinds.extractRaw (the Untar / Unzip loop) on an empty bucket
+    fnode <hexpath>        -> ok | err <tag>       bufcas.NewFileNode's gate (validateFileNodeParameters):
+                              BufModel.FileNodeGate.fileNodeGateE; tags path-empty, path-invalid:<nv tag>,
+                              path-not-normal, path-line-feed
+    fparse <hextext>       -> ok <hexpath> | err <tag>    bufcas.ParseFileNode of one "digest  path" text
+                              (BufModel.Manifest.parseFileNode; tags of BufModel.Manifest.MErr)
+    fman <hextext>         -> ok <hexpath>,... | err <tag>   bufcas.ParseManifest of a whole manifest text
+                              (BufModel.Manifest.parseManifest); paths in the manifest's own (sorted) order
 -/
 namespace Driver.C13
 open BufModel.Path Driver
@@ -92,7 +100,28 @@ def handleXt (fmt strip matcher maxSize entries : String) : String :=
       (match res with | none => "ok" | some er => Driver.Bucket.errS er) ++ "|" ++ dumpHex dest
   | _, _, _, _ => "bad-op"
 
+def handleFnode (p : String) : String :=
+  match BufModel.FileNodeGate.fileNodeGateE (s2l p) with
+  | .ok () => "ok"
+  | .error e => "err " ++ e.tag
+
+def handleFparse (t : String) : String :=
+  match BufModel.Manifest.parseFileNode (s2l t) with
+  | .ok n => "ok " ++ enc (l2s n.path)
+  | .error e => "err " ++ e.tag
+
+def handleFman (t : String) : String :=
+  match BufModel.Manifest.parseManifest (s2l t) with
+  | .ok m => "ok " ++ ",".intercalate (m.map fun n => enc (l2s n.path))
+  | .error e => "err " ++ e.tag
+
 def handle : List String → String
+  | ["fnode", a] => match hexDecode a with
+      | some s => handleFnode s | none => "bad-op"
+  | ["fparse", a] => match hexDecode a with
+      | some s => handleFparse s | none => "bad-op"
+  | ["fman", a] => match hexDecode a with
+      | some s => handleFman s | none => "bad-op"
   | ["xt", fmt, strip, matcher, maxSize, entries] => handleXt fmt strip matcher maxSize entries
   | ["clean", a] => match hexDecode a with
       | some s => enc (l2s (clean (s2l s))) | none => "bad-op"
